@@ -49,5 +49,8 @@ func fullExplanation(p *Prop) string {
 	if x, ok := round3Explain[p.ID]; ok {
 		s += " Added after round 3: " + x
 	}
+	if x, ok := round4Explain[p.ID]; ok {
+		s += " Added after round 4: " + x
+	}
 	return s
 }
